@@ -126,7 +126,7 @@ Proof.
   - destruct (size <? 0); [exact N|]. destruct (size =? 0); [exact N|]. cbn [fst]. nsame s N.
   - nsame s N.
   - destruct (venum s e); [cbn [fst]; nsame s N|exact N].
-  - destruct (count <? 0); [exact N|]. destruct (count =? 0); [exact N|]. destruct (gsize <? 0); [exact N|]. destruct (gsize =? 0); [exact N|].
+  - destruct (count <? 0); [exact N|]. destruct (count =? 0); [exact N|]. destruct (gsize <? 0); [exact N|]. destruct (gsize =? 0); [exact N|]. destruct (2 ^ 63 - 65 <? gsize); [exact N|].
     cbn [fst]. nsame s N.
   - destruct (vmsg s m && vsig s x); [|exact N]. unfold step_append. destruct (memb x (gnames s m)); [exact N|].
     destruct (verify_append (sz s) (rel s) (glsize s m) (glay s m) x); [exact N|]. cbn [do_append fst]. cbn zeta.
